@@ -1,3 +1,5 @@
+#[cfg(simple_dns_verif)]
+use simrt::shim_std as std;
 use std::sync::{Arc, RwLock};
 
 use simple_dns::{header_buffer, Packet, PacketFlag, ResourceRecord};
@@ -158,5 +160,13 @@ impl SimpleMdnsResponder {
 impl Default for SimpleMdnsResponder {
     fn default() -> Self {
         Self::new(FIVE_MINUTES)
+    }
+}
+
+#[cfg(simple_dns_verif)]
+impl SimpleMdnsResponder {
+    #[allow(missing_docs)]
+    pub fn verif_store(&self) -> Arc<RwLock<ResourceRecordManager<'static>>> {
+        self.resources.clone()
     }
 }
